@@ -1680,6 +1680,13 @@ int32 matrixCreateSessionTicket(ssl_t *ssl, unsigned char *out, int32 *outLen)
     psLockMutex(&g_sessTicketLock);
     /* Ticket itself */
     keys = ssl->keys->sessTickets;
+    if (keys == NULL)
+    {
+        /* The last ticket key was deleted after the ClientHello was
+           answered: no ticket can be issued */
+        rc = PS_FAILURE;
+        goto ERR_LOCKED;
+    }
     /* name */
     Memcpy(c, keys->name, 16);
     c += 16;
